@@ -196,13 +196,18 @@ func (t *Tokenizer) tokenizeBuffer(buf []byte, last bool) {
 		case skipChar: // skip and continue
 			continue
 		case openObject:
-			if 256 < len(t.mode) {
-				switch t.mode[256] {
-				case 'n':
+			if 256 < len(t.mode) && (t.mode[256] == 'n' || t.mode[256] == 't') {
+				// A number or token ends here. Add it and then look at
+				// the open again so that a top level value is complete,
+				// and a key is followed by a colon, just as when a
+				// separator is between the two.
+				if t.mode[256] == 'n' {
 					t.handleNum(off)
-				case 't':
+				} else {
 					t.addToken(string(t.tmp))
 				}
+				off--
+				break
 			}
 			if t.exkey {
 				t.newError(off, "expected a key")
@@ -304,13 +309,18 @@ func (t *Tokenizer) tokenizeBuffer(buf []byte, last bool) {
 			t.ri = 0
 			continue
 		case openArray:
-			if 256 < len(t.mode) {
-				switch t.mode[256] {
-				case 'n':
+			if 256 < len(t.mode) && (t.mode[256] == 'n' || t.mode[256] == 't') {
+				// A number or token ends here. Add it and then look at
+				// the open again so that a top level value is complete,
+				// and a key is followed by a colon, just as when a
+				// separator is between the two.
+				if t.mode[256] == 'n' {
 					t.handleNum(off)
-				case 't':
+				} else {
 					t.addToken(string(t.tmp))
 				}
+				off--
+				break
 			}
 			if t.exkey {
 				t.newError(off, "expected a key")
